@@ -105,6 +105,18 @@ pub(crate) fn verify_nonmembership<TC: Configuration>(
         ));
     }
 
+    // Verify that neither child is itself a prefix of the proof's label. Otherwise the
+    // claimed longest prefix is not the deepest node on the label's path, and the label
+    // could still be present further down the tree (the empty label marks a missing child
+    // of the root and is skipped, since its zero length makes it a prefix of everything)
+    for child in proof.longest_prefix_children.iter() {
+        if child.label != TC::empty_label() && child.label.is_prefix_of(&proof.label) {
+            return Err(VerificationError::NonMembershipProof(
+                "One of the children's labels is a prefix of the proof's label".to_string(),
+            ));
+        }
+    }
+
     // Verify that proof.longest_prefix is the longest common prefix of the children
     let mut lcp_children = proof.longest_prefix_children[0]
         .label
